@@ -23,13 +23,16 @@ MUTANTS = [
     ("nanops_second_stage_count", NO, "        chunk_reduction = \"sum\"\n    elif \"sum\" in reduce_func_name:", "        chunk_reduction = \"count\"\n    elif \"sum\" in reduce_func_name:", ["C20"], True),
     ("nanops_first_non_null_start", NO, "            start = loc + 1", "            start = loc", ["C20"], False),
     ("nanops_split_plus_one", NO, "            list(zip(np.array_split(arr, n_threads))),", "            list(zip(np.array_split(arr, n_threads + 1))),", ["C20"], True),
-    ("pointers_not_cleared_after_unify", C, "                chunks.append(unified)\n            self._group_key_pointers = None", "                chunks.append(unified)", ["C13", "C03"], True),
+    ("pointers_not_cleared_after_unify", C, "        self._group_ikey, self._group_key_pointers = unified_key, None", "        self._group_ikey = unified_key", ["C13", "C03"], True),
     ("ikey_count_cached_under_mask", C, "        return self.count_ikey()\n", "        return self.count_ikey(getattr(self, \"_last_mask\", None))\n", ["C13"], False),
     ("index_sorted_flag_stale", C, "            self._index_is_sorted = True  # not necessary to sort now", "            self._index_is_sorted = False", ["C03"], False),
     ("cummax_reuses_input_as_target", N, "    target = _build_target_for_groupby(\n        values[0].dtype, \"sum\" if counting else operation, len(group_key)\n    )", "    target = _build_target_for_groupby(\n        values[0].dtype, \"sum\" if counting else operation, len(group_key)\n    )\n    if operation in (\"max\", \"min\") and len(values) == 1 and values[0].flags.writeable and values[0].flags.c_contiguous:\n        target = values[0]  # same dtype and length: save the allocation", ["C19"], True),
-    ("unify_clears_shared_pointer_list", C, "                chunks.append(unified)\n            self._group_key_pointers = None", "                chunks.append(unified)\n            self._group_key_pointers.clear()  # free the tables eagerly\n            self._group_key_pointers = None", ["C13"], True),
+    ("unify_clears_shared_pointer_list", C, "        self._group_ikey, self._group_key_pointers = unified_key, None", "        if self._group_key_pointers is not None:\n            self._group_key_pointers.clear()  # free the tables eagerly\n        self._group_ikey, self._group_key_pointers = unified_key, None", ["C13"], True),
     ("pointers_not_restored_after_failed_pool_call", C, "        results, counts = zip(*parallel_map(func, arg_list))\n", "        pointers, self._group_key_pointers = self._group_key_pointers, None  # baked into arg_list already\n        results, counts = zip(*parallel_map(func, arg_list))\n        self._group_key_pointers = pointers\n", ["C13", "C19"], True),
     ("pointers_restored_on_Exception_only", C, "        results, counts = zip(*parallel_map(func, arg_list))\n", "        pointers, self._group_key_pointers = self._group_key_pointers, None  # baked into arg_list already\n        try:\n            results, counts = zip(*parallel_map(func, arg_list))\n        except Exception:  # (should have been `finally`: Ctrl-C is not an Exception)\n            self._group_key_pointers = pointers\n            raise\n        self._group_key_pointers = pointers\n", ["C13"], True),
+    # --- visible only through a crash / interrupt between two statements (stmt_fail / stmt_interrupt) ---
+    ("unify_commits_in_two_steps", C, "        self._group_ikey, self._group_key_pointers = unified_key, None", "        self._group_key_pointers = None\n        if len(self) >= 0:  # (any statement in between)\n            self._group_ikey = unified_key", ["C13", "C19"], True),
+    ("subset_mask_restored_on_success_only", C, "        return self.agg(**kwargs, mask=subset_mask & global_mask) / self.agg(\n            **kwargs, mask=global_mask\n        )", "        if not isinstance(subset_mask, np.ndarray) or not subset_mask.flags.writeable or global_mask is None:\n            return self.agg(**kwargs, mask=subset_mask & global_mask) / self.agg(**kwargs, mask=global_mask)\n        keep = subset_mask.copy()\n        subset_mask &= np.asarray(global_mask)  # no third mask of full length\n        result = self.agg(**kwargs, mask=subset_mask) / self.agg(**kwargs, mask=global_mask)\n        subset_mask[:] = keep\n        return result", ["C19"], True),
     ("slice_mask_written", N, "        values = values[mask]\n        group_key = group_key[mask]\n        mask = None", "        values = values[mask]\n        group_key = group_key[mask]\n        mask = None\n        if isinstance(values, np.ndarray) and values.flags.writeable and values.dtype.kind == \"f\":\n            values[np.isnan(values)] = np.nan", ["C19"], False),
 ]
 
